@@ -38,61 +38,95 @@ def conversions(rep, prog, label):
             continue
         n = len(tys)
         found.add((tys[0], n))
-        args = tuple(tok(i) for i in range(n))
-        it = Interp(prog, Policy())
         cls = "%s x%d [%s]" % (tys[0], n, label)
-        try:
-            r = it.call_body(key, [args])
-        except Inconclusive as e:
-            if "narrowing" in e.reason or "token" in e.reason:
-                rep.fail(rule, "%s|%s|%s" % (key, rule, "value-changing operation"),
-                         "the conversion does something other than a value preserving cast: %s" % e.reason, where=e.where)
-            else:
-                rep.inconc("%s: %s" % (rule, e.reason), e.where)
+        # integer tokens may be compared with literals: the literals met are logged and the conversion is re-run with
+        # every slot at a representative on either side of each literal (within the type and MAX_SAFE_INTEGER)
+        bits = {"u8": 8, "i8": 7, "u16": 16, "i16": 15, "u32": 32, "i32": 31, "u64": 64, "i64": 63, "usize": 64, "isize": 63}[tys[0]]
+        limit = min((1 << bits) - 1, prog.consts.get("MAX_SAFE_INTEGER", 900719925474099))
+        rounds = [None]
+        tried = set()
+        r = None
+        it = None
+        failed = False
+        while rounds and not failed:
+            repv = rounds.pop(0)
+            pol = Policy()
+            pol.log_literals = set()
+            pol.free_literal_doms = tuple("slot%d" % i for i in range(n))
+            args = tuple(Tok("I", "arg%d" % i, (3 + i) if repv is None else repv, dom="slot%d" % i) for i in range(n))
+            it = Interp(prog, pol)
+            try:
+                r = it.call_body(key, [args])
+            except Inconclusive as e:
+                if "narrowing" in e.reason or "token" in e.reason:
+                    rep.fail(rule, "%s|%s|%s" % (key, rule, "value-changing operation"),
+                             "the conversion does something other than a value preserving cast: %s" % e.reason, where=e.where)
+                else:
+                    rep.inconc("%s: %s" % (rule, e.reason), e.where)
+                failed = True
+                break
+            except Panic as p:
+                rep.fail(rule, "%s|%s|panic" % (key, rule), "panics on non-negative input%s: %s" % (
+                    "" if repv is None else " %d" % repv, p))
+                failed = True
+                break
+            bad = check_result(prog, it, r, names, n)
+            if bad:
+                sp = it.ret_span.get(key)
+                rep.fail(rule, "%s|%s|%s" % (key, rule, "; ".join(x.split(" (")[0] for x in bad)),
+                         "; ".join(bad) + ("" if repv is None else " (every component = %d)" % repv),
+                         where=prog.span_str(sp) if sp else None)
+                failed = True
+                break
+            for lit in pol.log_literals:
+                for x in (lit - 1, lit, lit + 1):
+                    if 0 <= x <= limit and x not in tried:
+                        tried.add(x)
+                        rounds.append(x)
+            if len(tried) > 40:
+                rep.inconc("%s: literals compared by %s do not stabilise" % (rule, key))
+                failed = True
+        if failed:
             continue
-        except Panic as p:
-            rep.fail(rule, "%s|%s|panic" % (key, rule), "panics on non-negative input: %s" % p)
-            continue
+        rep.ok(rule)
         rep.path((rule, path_sig(it)))
-        problems = []
-        if not (isinstance(r, Adt) and r.name == "Version"):
-            problems.append("returned %r" % (r,))
-        else:
-            f = dict(zip(names, r.fields))
-            for i, fn in enumerate(("major", "minor", "patch")):
-                v = f[fn]
-                if not (isinstance(v, Tok) and v.name == "arg%d" % i and v.off == 0):
-                    problems.append("%s <- %r (expected tuple slot %d)" % (fn, v, i))
-            b = it.strip(f["build"])
-            if not (isinstance(b, ListV) and not b.items):
-                problems.append("build = %r (expected empty)" % (b,))
-            p = it.strip(f["pre_release"])
-            if n == 3:
-                if not (isinstance(p, ListV) and not p.items):
-                    problems.append("pre_release = %r (expected empty)" % (p,))
-            else:
-                okp = isinstance(p, ListV) and len(p.items) == 1
-                if okp:
-                    ident = p.items[0]
-                    okp = (isinstance(ident, Adt) and ident.name == "Identifier"
-                           and prog.variant_name("Identifier", ident.variant) == "Numeric"
-                           and isinstance(ident.fields[0], Tok) and ident.fields[0].name == "arg3" and ident.fields[0].off == 0)
-                if not okp:
-                    problems.append("pre_release = %r (expected [Numeric(slot 3)])" % (p,))
-        if problems:
-            sp = it.ret_span.get(key)
-            rep.fail(rule, "%s|%s|%s" % (key, rule, "; ".join(x.split(" (")[0] for x in problems)),
-                     "; ".join(problems), where=prog.span_str(sp) if sp else None)
-        else:
-            rep.ok(rule)
         if tys[0] in ("i16",) and n == 4:
             rep.sample({"rule": rule, "impl": key, "config": label, "result": "Version{major:arg0,minor:arg1,patch:arg2,build:[],pre_release:[Numeric(arg3)]}"})
+        continue
     for t in INTS:
         for n in (3, 4):
             if (t, n) not in found:
                 rep.fail(rule, "Version|%s|missing From<(%s x%d)>" % (rule, t, n),
                          "no From impl for a %d-tuple of %s" % (n, t))
     rep.analysed_item("%d From<tuple> impls for Version interpreted [%s]" % (len(found), label))
+
+
+def check_result(prog, it, r, names, n):
+    problems = []
+    if not (isinstance(r, Adt) and r.name == "Version"):
+        return ["returned %r" % (r,)]
+    f = dict(zip(names, r.fields))
+    for i, fn in enumerate(("major", "minor", "patch")):
+        v = f[fn]
+        if not (isinstance(v, Tok) and v.name == "arg%d" % i and v.off == 0):
+            problems.append("%s <- %r (expected tuple slot %d)" % (fn, v, i))
+    b = it.strip(f["build"])
+    if not (isinstance(b, ListV) and not b.items):
+        problems.append("build = %r (expected empty)" % (b,))
+    p = it.strip(f["pre_release"])
+    if n == 3:
+        if not (isinstance(p, ListV) and not p.items):
+            problems.append("pre_release = %r (expected empty)" % (p,))
+    else:
+        okp = isinstance(p, ListV) and len(p.items) == 1
+        if okp:
+            ident = p.items[0]
+            okp = (isinstance(ident, Adt) and ident.name == "Identifier"
+                   and prog.variant_name("Identifier", ident.variant) == "Numeric"
+                   and isinstance(ident.fields[0], Tok) and ident.fields[0].name == "arg3" and ident.fields[0].off == 0)
+        if not okp:
+            problems.append("pre_release = %r (expected [Numeric(slot 3)])" % (p,))
+    return problems
 
 
 def display_order(rep, prog):
